@@ -104,13 +104,14 @@ def categoryPages (M : Nat) (servings : Option Nat) (chain : List (Str × Str)) 
     let path := catPath servings dirs
     let chain := chain ++ [(title, path)]
     let (subPages, subs) := subcategoryPages M servings chain dirs subdirs
-    let subs := insertionSort (fun a b => strLe a.1 b.1) subs
-    let recs : List (Str × Str × List Page) := recipes.map fun r =>
+    -- sorted by (title, directory name)
+    let subs := insertionSort (fun (a b : Str × Str × Str) => if a.1 == b.1 then strLe a.2.2 b.2.2 else strLe a.1 b.1) subs
+    let recs : List (Str × Str × List Page × Str) := recipes.map fun r =>
       match r.servings with
       | none =>
         let rp := recipePath none dirs r.file
         -- the single unscaled page hangs off the unscaled category; it is emitted with the scaled hierarchies (same content each time)
-        (r.title, rp, [])
+        (r.title, rp, [], r.file)
       | some native =>
         match servings with
         | some n =>
@@ -118,8 +119,8 @@ def categoryPages (M : Nat) (servings : Option Nat) (chain : List (Str × Str)) 
           let rchain := chain ++ [(r.title, rp)]
           let menu := ['#'] :: (List.range M).map fun m => hrefRelative rp (recipePath (some (m + 1)) dirs r.file)
           let rescaled := if n != native then [hrefRelative rp (recipePath (some native) dirs r.file)] else []
-          (r.title, rp, [Page.mk rp r.title (breadcrumbs rchain rp ++ [hrefRelative rp cssPath] ++ menu ++ rescaled)])
-        | none => (r.title, recipePath (some native) dirs r.file, [])
+          (r.title, rp, [Page.mk rp r.title (breadcrumbs rchain rp ++ [hrefRelative rp cssPath] ++ menu ++ rescaled)], r.file)
+        | none => (r.title, recipePath (some native) dirs r.file, [], r.file)
     let unscaledRecipePages : List Page :=
       if servings.isNone then
         recipes.filterMap fun r => if r.servings.isNone then
@@ -127,16 +128,17 @@ def categoryPages (M : Nat) (servings : Option Nat) (chain : List (Str × Str)) 
           some (Page.mk rp r.title (breadcrumbs (chain ++ [(r.title, rp)]) rp ++ [hrefRelative rp cssPath]))
         else none
       else []
-    let recsSorted := insertionSort (fun (a b : Str × Str × List Page) => strLe a.1 b.1) recs
+    -- sorted by (title, file name)
+    let recsSorted := insertionSort (fun (a b : Str × Str × List Page × Str) => if a.1 == b.1 then strLe a.2.2.2 b.2.2.2 else strLe a.1 b.1) recs
     let me : Page := Page.mk path title
-      (breadcrumbs chain path ++ [hrefRelative path cssPath] ++ subs.map (fun s => hrefRelative path s.2) ++ recsSorted.map (fun r => hrefRelative path r.2.1))
-    (me :: subPages ++ recs.flatMap (·.2.2) ++ unscaledRecipePages, (title, path))
-def subcategoryPages (M : Nat) (servings : Option Nat) (chain : List (Str × Str)) (dirs : List Str) : List Dir → List Page × List (Str × Str)
+      (breadcrumbs chain path ++ [hrefRelative path cssPath] ++ subs.map (fun s => hrefRelative path s.2.1) ++ recsSorted.map (fun r => hrefRelative path r.2.1))
+    (me :: subPages ++ recs.flatMap (·.2.2.1) ++ unscaledRecipePages, (title, path))
+def subcategoryPages (M : Nat) (servings : Option Nat) (chain : List (Str × Str)) (dirs : List Str) : List Dir → List Page × List (Str × Str × Str)
   | [] => ([], [])
   | d :: ds =>
     let (p, tp) := categoryPages M servings chain dirs false d
     let (ps, tps) := subcategoryPages M servings chain dirs ds
-    (p ++ ps, tp :: tps)
+    (p ++ ps, (tp.1, tp.2, d.name) :: tps)
 end
 
 mutual
